@@ -180,13 +180,11 @@ func c19(c *Ctx) {
 		}
 		bad := ""
 		n := 0
-		for _, blk := range restore.Blocks {
-			ret, ok := blk.Instrs[len(blk.Instrs)-1].(*ssa.Return)
-			if !ok {
-				continue
-			}
+		for _, alt := range an.ReturnAlts(restore) {
+			ret := alt.Ret
+			_ = ret
 			noCPU, noNUMA := false, false
-			for _, g := range an.Guards(ret) {
+			for _, g := range alt.Guards {
 				p := an.Path(g.Cond)
 				if g.Truth && strings.Contains(p, "IsEmpty") {
 					noCPU = true
